@@ -80,8 +80,12 @@ def c10_calls(rng, t):
     msp = rng.choice([-1, -1, 0, 1, 2])
     new = rng.choice(['', 'x', 'ab', 'ba', sub + sub, 'aa'])
     tab = rng.choice([0, 1, 2, 4, 8])
+    dressed = rng.choice(['\x1b[1m' + sub, sub + '\x1b[m', '\x1b[31m' + sub + '\x1b[m'])     # a plain str is searched for as it is
     out = [('__len__', (), lambda: len(t), 'value'),
-           ('__contains__', (sub,), lambda: sub in t, 'value')]
+           ('__contains__', (sub,), lambda: sub in t, 'value'),
+           ('__contains__', (dressed,), lambda: dressed in t, 'value'),
+           ('find', (dressed, None, None), lambda: t.find(dressed), 'value'),
+           ('count', (dressed, None, None), lambda: t.count(dressed), 'value')]
     for q in QUERY:
         out.append((q, (sub, a, b), (lambda q=q: getattr(t, q)(sub, a, b)), 'value'))
     out.append((rng.choice(ISX), (), None, 'value'))
@@ -149,9 +153,25 @@ def validate_pystr(rep, rng, tier):
         raise SpecOracleError('Spec/PyStr.v disagrees with CPython str on %d of %d cases, first: %s' % (len(bad), len(reqs), bad[0]))
 
 
+def esc_text(rng):
+    """a base text that contains U+001B: pieces that spell complete / incomplete / non-SGR control sequences next to ordinary
+    characters.  Such a text is reachable (assign_str, concatenation, case conversion of ESC [ 1 M) and every C10 method has to
+    treat it as the characters it consists of"""
+    parts = ['a', 'b', 'm', 'M', '[', '1', ';', ' ', '\x1b', '\x1b[', '\x1b[1m', '\x1b[m', '\x1b[2J', '\x1b[31', 'ab', '1m']
+    return ''.join(rng.choice(parts) for _ in range(rng.choice([1, 2, 3, 4, 5, 6, 8])))
+
+
 def c10_make(clsname, t, settings):
     """the receiver of a C10 case.  '<cls>(AnsiString), source edited afterwards': the value is built FROM a mutable AnsiString
     which the caller keeps and edits in place afterwards - the built value's text is still t"""
+    if ESC in t:
+        # the constructor would parse t; assign_str takes a text as it is
+        a = AnsiString('')
+        a.assign_str(t)
+        if settings:
+            a.apply_formatting(settings)
+        assert a.base_str == t
+        return AnsiStr(a) if clsname.startswith('AnsiStr') else a
     if clsname in ('AnsiString', 'AnsiStr'):
         cls = AnsiStr if clsname == 'AnsiStr' else AnsiString
         s = cls(t, *settings)
@@ -182,7 +202,7 @@ def c10_run(rep, rng, tier, term):
                       for (_, m, why) in changed]
     n = 2500 if tier == 'quick' else 80000
     for k in range(n):
-        t = rand_text(rng)
+        t = rand_text(rng) if k % 6 else esc_text(rng)
         cls = AnsiString if k % 3 else AnsiStr
         clsname = cls.__name__ if k % 7 else cls.__name__ + '(AnsiString), source edited afterwards'
         settings = [] if k % 2 else ['red']
@@ -191,9 +211,11 @@ def c10_run(rep, rng, tier, term):
         except Exception as e:  # noqa
             viol.append({'oracle': 'C10.construct', 'case': {'text': t}, 'msg': 'constructor raised %r' % e})
             continue
-        if ESC in t:
-            continue
         for (name, args, exp, kind) in c10_calls(rng, t):
+            if ESC in t and name in ('replace',) and len(args) > 1 and ESC in args[1]:
+                continue      # a str REPLACEMENT with escape sequences is read as formatted text (documented: "if new is a str ...")
+            if ESC in t and name in ('ljust', 'rjust', 'center', 'zfill') :
+                pass
             payload = {'class': clsname, 'text': t, 'method': name, 'args': list(args)}
             if k % 2 == 0:
                 payload['settings'] = settings
@@ -359,6 +381,47 @@ def c14_run(rep, rng, tier, term):
             if ref[0] == 'ok' and got[0] == 'ok' and got[1][0] != ref[1][0]:
                 viol.append({'oracle': 'C14.codes', 'case': {'code': c, 'form': '[%d' % c}, 'msg': 'verbatim differs: %s vs %s' % (got, ref)})
         reqs.append([7, [2, c]]); meta.append((c, ref if c else call(lambda: settings_of([c]))))
+    # the same code through apply_formatting / remove_formatting as a BARE argument (0 is falsy as a Python value, but it is the
+    # reset code like '0' and [0]), on both classes
+    for c in list(range(0, 12)) + [31, 107, 255]:
+        for clsname, cls in (('AnsiString', AnsiString), ('AnsiStr', AnsiStr)):
+            def via_apply(f):
+                s = cls('xyz')
+                r = s.apply_formatting(f, 1, 2)
+                s = r if cls is AnsiStr else s
+                return [[str(x) for x in s.ansi_settings_at(i)] for i in range(3)], s.to_str()
+            def via_remove(f):
+                s = cls('xyz', 'bold', c, 'italic')
+                r = s.remove_formatting(f, 1, 3)
+                s = r if cls is AnsiStr else s
+                return [[str(x) for x in s.ansi_settings_at(i)] for i in range(3)]
+            ref, refr = call(lambda: via_apply([c])), call(lambda: via_remove([c]))
+            for f in (c, str(c), (c,), '[%d' % c, AnsiSetting(c)):
+                payload = {'code': c, 'class': clsname, 'form': repr(f), 'call': 'apply_formatting(form, 1, 2) / remove_formatting(form, 1, 3)'}
+                rep.count(payload, True)
+                got, gotr = call(lambda: via_apply(f)), call(lambda: via_remove(f))
+                if got != ref or gotr != refr:
+                    viol.append({'oracle': 'C14.codes.apply', 'case': payload,
+                                 'msg': 'code %d given as %r: apply_formatting gives %s / remove_formatting leaves %s; given as [%d]: %s / %s' % (c, f, got, gotr, c, ref, refr)})
+                    break
+    # an integer that is not a plain int object (bool, IntEnum member) is the code of its VALUE, wherever an integer may stand
+    import enum as _enum
+    _IE = _enum.IntEnum('_IE', {'FIVE': 5})
+    for (f, ref_form) in ((True, 1), (False, 0), ([38, 5, True], [38, 5, 1]), (Positional([38, 5, True]), [38, 5, 1]), ([48, 2, True, False, _IE.FIVE], [48, 2, 1, 0, 5]),
+                          (_IE.FIVE, 5), (AnsiSetting(True), AnsiSetting(1)), (AnsiSetting([38, 5, True]), AnsiSetting('38;5;1')),
+                          (AnsiFormat.color256(True), AnsiFormat.color256(1)), (AnsiFormat.rgb(True, False, True), AnsiFormat.rgb(1, 0, 1)),
+                          (AnsiFormat.bg_rgb(_IE.FIVE, 0, True), AnsiFormat.bg_rgb(5, 0, 1)), (AnsiFormat.ul_color256(True), AnsiFormat.ul_color256(1))):
+        check_equal('intkinds', ref_form, [f], {'integer kinds': repr(f)})
+    # an AnsiStr given where a str is documented stands for its TEXT (its raw str value is its rendering, and it overrides ==)
+    for (f, ref_form) in ((AnsiStr('bold'), 'bold'), (AnsiStr('bold', 'red'), 'bold'), (AnsiStr('31;4'), '31;4'), (AnsiStr('[38;5;1'), '[38;5;1'),
+                          ([AnsiStr('rgb(1,2,3)'), 'italic'], ['rgb(1,2,3)', 'italic']), (Positional([AnsiStr('Dark Red'), 4]), ['dark red', 4]),
+                          (AnsiSetting(AnsiStr('1', 'red')), AnsiSetting('1')), (AnsiSetting(AnsiStr('38;5;1')), AnsiSetting('38;5;1'))):
+        check_equal('ansistr', ref_form, [f], {'AnsiStr as setting': repr(f)})
+    for bad_f in (AnsiStr('nosuchname'), AnsiStr('rgb(1,2)', 'bold')):
+        got = call(lambda: settings_of(bad_f))
+        rep.count({'bad': 'AnsiStr(%r)' % bad_f.base_str}, True)
+        if got != ('err', 'ValueError'):
+            viol.append({'oracle': 'C14.errors', 'case': {'form': 'AnsiStr(%r)' % bad_f.base_str}, 'msg': 'AnsiStr(%r): %s, expected ValueError' % (bad_f.base_str, got)})
     # a directive is a code when it is made of decimal digits; blanks around it and leading zeros are tolerated
     for (txt, code) in ((' 31 ', 31), ('007', 7), ('31 ', 31), ('0031', 31), ('bold; 31', None)):
         if code is not None:
@@ -699,10 +762,10 @@ def c16_run(rep, rng, tier, term):
             if not regex and pat and rng.random() < 0.3:
                 # the literal occurs only with another letter case (matching ignores case unless match_case=True)
                 pat = pat.swapcase() if rng.random() < 0.5 else pat.upper()
-            if pat and '\x1b' not in pat and rng.random() < 0.1 and (not regex or pat.isalnum()):
-                # an (unformatted) AnsiStr is a str and may be the pattern (re itself cannot read a pattern WITH metacharacters
-                # from an AnsiStr: its tokenizer compares characters with ==, which AnsiStr defines against AnsiStr only)
-                pat = AnsiStr(pat)
+            if pat and '\x1b' not in pat and rng.random() < 0.15:
+                # an AnsiStr is a str and may be the pattern, literal or regular expression, with metacharacters or without; it
+                # stands for its TEXT (its raw str value is its rendering) - also when it is formatted itself
+                pat = AnsiStr(pat) if rng.random() < 0.6 else AnsiStr(pat, 'red')
             mc = rng.random() < 0.5
             cnt = rng.choice([-1, -1, 0, 1, 2, 3])
             un = rng.random() < 0.4
@@ -715,7 +778,9 @@ def c16_run(rep, rng, tier, term):
                         forms = ['[' + str(rng.choice(ss))]
             else:
                 forms = [form_py(g.simple_form()) for _ in range(rng.randint(0, 2))]
-            payload = {'history': ops, 'object': i, 'method': 'unformat_matching' if un else 'format_matching', 'pattern': str.__str__(pat), 'pattern_class': type(pat).__name__, 'regex': regex,
+            ptext = pat.base_str if isinstance(pat, AnsiStr) else pat
+            payload = {'history': ops, 'object': i, 'method': 'unformat_matching' if un else 'format_matching', 'pattern': ptext,
+                       'pattern_class': type(pat).__name__ + (' (formatted)' if isinstance(pat, AnsiStr) and str.__str__(pat) != ptext else ''), 'regex': regex,
                        'match_case': mc, 'count': cnt, 'format': [repr(f) for f in forms]}
             rep.count(payload, len((o._s if is_str else o)._fmts) >= 2)
             rep.bump(('AnsiStr.' if is_str else '') + ('unformat' if un else 'format'))
@@ -724,7 +789,7 @@ def c16_run(rep, rng, tier, term):
             if is_str and r1[0] == 'ok':
                 c1 = r1[1]                               # the returned AnsiStr carries the result
             def loop():
-                p = str.__str__(pat) if regex else re.escape(str.__str__(pat))
+                p = ptext if regex else re.escape(ptext)
                 n = cnt
                 for m in re.finditer(p, c2.base_str, 0 if mc else re.IGNORECASE):
                     if n == 0:
@@ -909,21 +974,31 @@ def styles_of(term, o):
     return [term.style([str(x) for x in o.ansi_settings_at(i)]) for i in range(len(o.base_str))]
 
 
+def closed_text(x):
+    """Python port of RoundTripEsc.closed_text (three-state reader): x tokenises to its own characters in every context -
+    every ESC [ starts a COMPLETE sequence whose final byte (0x40-0x7E) is not 'm', and x does not end in ESC / inside a body"""
+    st = 0                                   # 0 normal, 1 just after ESC, 2 inside the body of ESC [
+    for c in x:
+        if st == 0:
+            st = 1 if c == ESC else 0
+        elif st == 1:
+            st = 2 if c == '[' else (1 if c == ESC else 0)
+        else:
+            if 0x40 <= ord(c) <= 0x7e:
+                if c == 'm':
+                    return False
+                st = 0
+    return st == 0
+
+
 def esc_safe(o):
-    """A value whose text contains U+001B is evaluated when the known finding K1 cannot apply to it: every ESC[ in the text
-    starts a COMPLETE control sequence that is not SGR (final byte other than 'm'), no style change lies strictly inside such a
-    sequence (the characters of one sequence all report the very same setting objects) and the text does not end in ESC.
-    Then the rendering keeps the embedded sequences intact and re-tokenises into the same text."""
+    """A value whose text contains U+001B is evaluated when the known finding K1 cannot apply to it - exactly the hypothesis
+    cuts_closed of theorem C03_roundtrip_esc: the text is closed, and so is its prefix up to EVERY change point of the table (a
+    stop-and-restart point counts, whatever the settings on both sides), i.e. no change point lies strictly inside an embedded
+    sequence.  Then the rendering keeps the embedded sequences intact and re-tokenises into the same text."""
     base = o.base_str
-    if base.endswith(ESC):
-        return False
-    for m in CSI_RE.finditer(base):
-        if m.group(2) in ('', 'm'):
-            return False
-        ids = set(tuple(id(x) for x in o.ansi_settings_at(i)) for i in range(m.start(), m.end()))
-        if len(ids) > 1:
-            return False
-    return True
+    a = o._s if isinstance(o, AnsiStr) else o
+    return closed_text(base) and all(closed_text(base[:k]) for k in a._fmts)
 
 
 def c03_check(term, o, viol, payload):
@@ -1218,7 +1293,9 @@ def c12fmt_run(rep, rng, tier, term):
                         if got != want or got2 != want:
                             viol.append({'oracle': 'C12.format', 'case': payload,
                                          'msg': 'format(%s, %r) %s / to_str %s, padding+apply on a copy gives %s' % (vname, spec, got, got2, want)})
-        for bad in ('.1', '5.1', 's', '5s', 'x<5s', '<\u0663', 'x>\u0661\u0660', '=5', '0=5', ',', '_', '5,', 'n', '#5', '05d', '5c', '<5.2', ' <5s', '5\n', '<5\n', 'x5', '5x'):
+        for bad in ('.1', '5.1', 's', '5s', 'x<5s', '<\u0663', 'x>\u0661\u0660', '=5', '0=5', ',', '_', '5,', 'n', '#5', '05d', '5c', '<5.2', ' <5s', '5\n', '<5\n', 'x5', '5x',
+                    # a width that cannot be a size: str raises ValueError (too many decimal digits), not OverflowError
+                    '99999999999999999999', '>99999999999999999999', '*^99999999999999999999', 'x<99999999999999999999:red', '%d' % (2 ** 63)):
             payload = {'value': vname, 'spec': bad}
             rep.count(payload, True)
             got = call(lambda: format(v, bad))
@@ -1333,6 +1410,39 @@ def c13_run(rep, rng, tier, term):
             elif str.__str__(rb[1]) != rb[1].to_str() or ('%s' % rb[1]) != rb[1].to_str():
                 viol.append({'oracle': 'C13.payload', 'case': payload,
                              'msg': 'AnsiStr(%r): str payload %r differs from its own rendering %r' % (w, str.__str__(rb[1]), rb[1].to_str())})
+    # copies made by the standard protocols (copy.copy, copy.deepcopy, pickle) are AnsiStr values like any other: payload equal to
+    # the rendering, equal to the original; == / != answer like the AnsiString twins do (and != is the opposite of ==)
+    import copy as _copy, pickle as _pickle
+    fixed_vals = [(AnsiStr('ab').apply_formatting('faint', 0, 1).apply_formatting(['red', 'blue'], 1, 2), 'faint a, red+blue b'),
+                  (AnsiStr('a', '[38;2'), "AnsiStr('a', '[38;2')"), (AnsiStr('a', 'bold', 'bold'), "AnsiStr('a','bold','bold')"), (AnsiStr('a', 'bold'), "AnsiStr('a','bold')"),
+                  (AnsiStr('a', '[31', '[34'), "AnsiStr('a','[31','[34')"), (AnsiStr('a', '[34'), "AnsiStr('a','[34')"), (AnsiStr('a'), "AnsiStr('a')"), (AnsiStr(''), "AnsiStr('')")]
+    pool = fixed_vals + [(AnsiStr(o), {'history': ops, 'object': i}) for (o, ops, i) in vals[:150 if tier == 'quick' else 4000]]
+    for (x, name) in pool:
+        for how, mk in (('copy.copy', _copy.copy), ('copy.deepcopy', _copy.deepcopy), ('pickle', lambda v: _pickle.loads(_pickle.dumps(v)))):
+            payload = {'value': name, 'copied by': how}
+            rep.count(payload, True)
+            r = call(lambda: mk(x))
+            if r[0] != 'ok' or not isinstance(r[1], AnsiStr):
+                viol.append({'oracle': 'C13.copy', 'case': payload, 'msg': '%s gives %s' % (how, r[:2])})
+                continue
+            y = r[1]
+            if str.__str__(y) != y.to_str() or ('%s' % y) != y.to_str():
+                viol.append({'oracle': 'C13.copy', 'case': payload, 'msg': 'the copy has the str value %r but renders as %r' % (str.__str__(y), y.to_str())})
+            elif value_obs(y) != value_obs(x) or str.__str__(y) != str.__str__(x):
+                viol.append({'oracle': 'C13.copy', 'case': payload, 'msg': 'the copy differs from the original: %s vs %s' % (describe(y), describe(x))})
+    for k, (x, xn) in enumerate(pool):
+        for (y, yn) in [pool[(k + 1) % len(pool)], pool[(k + 2) % len(pool)], (x, xn), (AnsiStr(x), 'a copy')]:
+            payload = {'left': xn, 'right': yn}
+            rep.count(payload, True)
+            a, b = AnsiString(x), AnsiString(y)
+            want = (a == b)
+            if (x == y) is not want or (x != y) is not (not want) or (a != b) is not (not want):
+                viol.append({'oracle': 'C13.eq', 'case': payload, 'msg': 'AnsiStr: == %s, != %s; the AnsiString twins: == %s, != %s (%s / %s)' % (x == y, x != y, a == b, a != b, describe(x), describe(y))})
+        for other in (x.base_str, str.__str__(x), 5, None):
+            a = AnsiString(x)
+            if (x == other) is not (a == other) or (x != other) is not (a != other) or (x != other) is (x == other):
+                viol.append({'oracle': 'C13.eq', 'case': {'left': xn, 'right': repr(other)},
+                             'msg': 'against %r: AnsiStr == %s, != %s; AnsiString == %s, != %s' % (other, x == other, x != other, a == other, a != other)})
     # constructor forms
     g = Gen(rng, odd=False)
     for (o, ops, i) in vals[:200 if tier == 'quick' else 5000]:
@@ -1423,6 +1533,9 @@ def c13_run(rep, rng, tier, term):
     return viol, []
 
 
+_REPLAY_CACHE = {}
+
+
 def generic_case_replay(runfn):
     def f(v, term):
         class R:
@@ -1430,7 +1543,11 @@ def generic_case_replay(runfn):
             def count(self, *a, **k): pass
             def bump(self, *a, **k): pass
         from .term import Term
-        vi, _ = runfn(R(), random.Random(int(__import__('os').environ.get('VERIF_SEED', '20260926'))), 'quick', term or Term())
+        seed = int(__import__('os').environ.get('VERIF_SEED', '20260926'))
+        key = (id(runfn), seed)
+        if key not in _REPLAY_CACHE:          # one rerun serves every recorded case of this exploration
+            _REPLAY_CACHE[key] = runfn(R(), random.Random(seed), 'quick', term or Term())[0]
+        vi = _REPLAY_CACHE[key]
         # the SAME case under the same oracle (the run is deterministic for a seed); another case failing under that oracle is
         # reported by the run itself, with its own input, not under this entry's name
         hit = [x for x in vi if x['oracle'] == v.get('oracle') and json.dumps(x.get('case'), sort_keys=True, default=str) == json.dumps(v.get('case'), sort_keys=True, default=str)]
@@ -1502,4 +1619,57 @@ def c11_assign_ansistr_run(rep, rng, tier, term):
             if ra[0] != rb[0] or value_obs(a) != value_obs(b) or type(a.base_str) is not str or '\x1b' in a.base_str:
                 viol.append({'oracle': 'C11.assign.ansistr', 'case': payload,
                              'msg': 'assign_str(AnsiStr) gives %s (base_str type %s); assign_str of its text gives %s' % (describe(a), type(a.base_str).__name__, describe(b))})
+    return viol, []
+
+
+# ====================================================================== C07 on texts that contain U+001B
+def c07_esc_run(rep, rng, tier, term):
+    """remove_formatting / clear_formatting on values whose TEXT contains U+001B (reachable through assign_str, concatenation,
+    case conversion): the text is never changed - in particular it is not parsed again - and the selected settings go, on both
+    classes.  (The history runs use generated texts without escapes.)"""
+    viol = []
+    n = 120 if tier == 'quick' else 6000
+    for k in range(n):
+        t = esc_text(rng)
+        if ESC not in t:
+            continue
+        clsname = 'AnsiStr' if k % 2 else 'AnsiString'
+        a = AnsiString('')
+        a.assign_str(t)
+        L = len(t)
+        spans = [(rng.choice(['bold', 'red', 'italic', '[38;5;1']), rng.randint(0, L), rng.randint(0, L + 1)) for _ in range(rng.randint(0, 3))]
+        for (f, st, en) in spans:
+            a.apply_formatting(f, st, en)
+        v = AnsiStr(a) if clsname == 'AnsiStr' else a
+        before = [[(id(x), str(x)) for x in v.ansi_settings_at(i)] for i in range(L)]
+        for (what, sel, st, en) in (('clear_formatting()', None, None, None), ('remove_formatting()', None, None, None),
+                                    ("remove_formatting('bold')", 'bold', None, None), ("remove_formatting(None, 1, %d)" % (L - 1), None, 1, L - 1)):
+            payload = {'class': clsname, 'text': t, 'applied': [list(x) for x in spans], 'call': what}
+            rep.count(payload, bool(spans))
+            c = AnsiString(a)
+            w = AnsiStr(c) if clsname == 'AnsiStr' else c
+            if what == 'clear_formatting()':
+                r = call(lambda: w.clear_formatting())
+            else:
+                r = call(lambda: w.remove_formatting(sel, st, en))
+            if r[0] != 'ok':
+                viol.append({'oracle': 'C07.esc', 'case': payload, 'msg': '%s %s' % (what, r)})
+                continue
+            res = r[1] if clsname == 'AnsiStr' else w
+            if not hasattr(res, 'base_str') or res.base_str != t:
+                viol.append({'oracle': 'C07.esc', 'case': payload, 'msg': '%s changed the text %r to %r' % (what, t, getattr(res, 'base_str', res))})
+                continue
+            lo, hi = (0, L) if st is None else (st, max(st, en))
+            for i in range(L):
+                now = [(id(x), str(x)) for x in res.ansi_settings_at(i)]
+                if lo <= i < hi:
+                    want = [x for x in before[i] if sel is not None and x[1] != {'bold': '1'}.get(sel, sel)]
+                else:
+                    want = before[i]
+                if [x[1] for x in now] != [x[1] for x in want]:
+                    viol.append({'oracle': 'C07.esc', 'case': payload,
+                                 'msg': '%s: character %d reports %s, expected %s (before: %s)' % (what, i, [x[1] for x in now], [x[1] for x in want], [x[1] for x in before[i]])})
+                    break
+            if clsname == 'AnsiStr' and str.__str__(res) != res.to_str():
+                viol.append({'oracle': 'C07.esc', 'case': payload, 'msg': 'payload of the result differs from its rendering'})
     return viol, []
